@@ -16,7 +16,7 @@ Fixpoint spaced_b (prev_start : Q) (caps : list wcap) : bool :=
   match caps with
   | [] => true
   | c :: t => Qle_bool prev_start (w_start c - cap_words_b c * mpc) && Qle_bool (w_start c) (w_end c)
-              && match t with [] => true | c' :: _ => Qle_bool (w_end c) (w_start c') end && spaced_b (w_start c) t
+              && spaced_b (w_start c) t
   end.
 Definition has_word_b (c : wcap) : bool := match words (w_text c) with [] => false | _ => true end.
 Definition below_100h_b (c : wcap) : bool := negb (Qle_bool 360000000000 (w_end c)).
